@@ -9,7 +9,9 @@ import (
 	"bytes"
 	"context"
 	"encoding/json"
+	"errors"
 	"fmt"
+	"io"
 	"os"
 	"strings"
 	"sync"
@@ -19,6 +21,7 @@ import (
 	"github.com/plgd-dev/go-coap/v3/message/codes"
 	"github.com/plgd-dev/go-coap/v3/message/pool"
 	"github.com/plgd-dev/go-coap/v3/net/blockwise"
+	"github.com/plgd-dev/go-coap/v3/net/monitor/inactivity"
 	"github.com/plgd-dev/go-coap/v3/net/responsewriter"
 	udpclient "github.com/plgd-dev/go-coap/v3/udp/client"
 
@@ -251,6 +254,11 @@ func (e *env) run(kind string) (bool, string) {
 		}
 		cancel()
 		return c.wait(), outcome(c)
+	case "plainBodyFail":
+		// a confirmable POST whose body (8 bytes, at most one block) can be positioned but not read: the call fails, nothing of it
+		// stays - and the copy prepared for retransmission goes back to the pool once
+		c := e.async(func() (*pool.Message, error) { return cc.Post(ctx, p, message.TextPlain, &failBody{size: 8}) })
+		return c.wait(), outcome(c)
 	case "plainRst":
 		c := get()
 		q, ok := e.waitOut(pathIs(p))
@@ -462,6 +470,23 @@ func (e *env) run(kind string) (bool, string) {
 			return true, "ok"
 		}
 		return true, "err"
+	case "kaMissed":
+		// the keep-alive (the library's KeepAlive object driven on this connection) pings three times; the peer leaves the first
+		// two pings unanswered for good and answers the third: a superseded ping is cancelled - nothing of the three stays
+		ka := inactivity.NewKeepAlive(5, func(*udpclient.Conn) {}, func(cc *udpclient.Conn, receivePong func()) (func(), error) {
+			return cc.AsyncPing(receivePong)
+		})
+		var last memnet.Dgram
+		for k := 0; k < 3; k++ {
+			ka.OnInactive(cc)
+			q, ok := e.waitOut(func(d memnet.Dgram) bool { return d.Type == message.Confirmable && d.Code == int(codes.Empty) })
+			if !ok {
+				return false, "noping"
+			}
+			last = q
+		}
+		e.inject(message.Reset, codes.Empty, last.MID, nil, nil, nil)
+		return true, "ok"
 	case "pingAsyncOK":
 		// an asynchronous ping that is answered; the function AsyncPing returned is never called - the answer ends the exchange
 		pong := make(chan struct{}, 1)
@@ -763,3 +788,23 @@ func Run(stimPath, out string) {
 		wr.Put(t)
 	}
 }
+
+// failBody: a payload source (a file on a share that went away) that knows its size and can be positioned, but whose reads fail
+type failBody struct{ size, off int64 }
+
+func (p *failBody) Seek(offset int64, whence int) (int64, error) {
+	switch whence {
+	case io.SeekStart:
+		p.off = offset
+	case io.SeekCurrent:
+		p.off += offset
+	case io.SeekEnd:
+		p.off = p.size + offset
+	}
+	if p.off < 0 {
+		p.off = 0
+		return 0, errors.New("negative position")
+	}
+	return p.off, nil
+}
+func (p *failBody) Read([]byte) (int, error) { return 0, errors.New("payload source failed") }
